@@ -164,6 +164,10 @@ class EvalMixin:
                                     return self.dataclass_default(st, s.value)
                                 finally:
                                     st.frames.pop()
+                if info is not None and any(front.resolve_class(c.module, b) is None and b not in BUILTIN_EXC and b != "object"
+                                            for c in front.mro(info) for b in c.bases):
+                    # inherited from a class outside the repository (lark.Transformer, ...): an external method
+                    return Opaque(f"{o.cls}().{name}")
                 if o.cls in BUILTIN_EXC or (info is not None and self.cls_is_sub(o.cls, "BaseException", o)):
                     if name in ("__init__",):
                         return Builtin("noop")
